@@ -33,6 +33,9 @@ def load_cases(prop):
 
 
 def _lib_for(modname):
+    import contracts
+    for m in contracts.MODULES:  # registrations of summaries / loop specs happen at import
+        importlib.import_module("contracts." + m)
     mod = importlib.import_module(modname)
     lib = getattr(mod, "LIB", None)
     if lib is None:
